@@ -1,6 +1,7 @@
 package fsm
 
 import (
+	"bytes"
 	"github.com/canopy-network/canopy/lib"
 	"github.com/canopy-network/canopy/lib/crypto"
 	"google.golang.org/protobuf/types/known/anypb"
@@ -122,6 +123,12 @@ func (s *StateMachine) CheckTx(transaction []byte, txHash string, batchVerifier 
 	// perform basic validations against the tx object
 	if err = tx.CheckBasic(); err != nil {
 		return
+	}
+	// replay protection keys on the hash of the raw bytes while the signature covers the decoded content: accept only the
+	// canonical encoding of that content, or the same signed transaction could be included again under another hash
+	// (trailing default fields, re-ordered or repeated fields, non-minimal varints all decode to the same transaction)
+	if canonical, e := lib.Marshal(tx); e != nil || !bytes.Equal(canonical, transaction) {
+		return nil, ErrNonCanonicalTx()
 	}
 	if s.Metrics != nil {
 		s.Metrics.CheckTxDecodeTime.Observe(time.Since(decodeStartTime).Seconds())
